@@ -1,6 +1,7 @@
 """C12 — stored VAAs come back byte-exact and emitter queries never mix streams."""
 import os
 import core
+from dbgroup_common import run_cases_retry, coq_prove_retry
 from vaa_common import gvaa
 from c04 import hist
 
@@ -123,7 +124,7 @@ def same_generator(ctx):
 
 def run(ctx):
     core.run_extract(ctx, ["db_keys", "vaa_consts"])
-    core.coq_prove(ctx, "C12", extra_targets=["model/DbRun.vo"])
+    coq_prove_retry(ctx, "C12", extra_targets=["model/DbRun.vo"])
     if ctx.tier == "thorough":
         core.coq_thorough_audit(ctx, "C12")
     same_generator(ctx)
@@ -174,8 +175,8 @@ def run(ctx):
                         concrete=True, replay=replay_of(r, qi, m), key=k)
     ctx.cov["monitor_failures"] = nmon
     # model vs implementation: every store history replayed on the model, every answer compared
-    bad = core.run_cases(ctx, "cases_C12", rows, HDR, "dcase", gcase, "(* ok : dcase -> bool is WH.model.DbRun.ok *)",
-                         weight=lambda r: 130 * len(r["ops"]) + 40 * len(r["q"]) + sum(len(q.get("resp") or q.get("ids") or []) for q in r["q"]))
+    bad = run_cases_retry(ctx, "cases_C12", rows, HDR, "dcase", gcase, "(* ok : dcase -> bool is WH.model.DbRun.ok *)", ["model/DbRun.vo"],
+                          weight=lambda r: 130 * len(r["ops"]) + 40 * len(r["q"]) + sum(len(q.get("resp") or q.get("ids") or []) for q in r["q"]))
     if bad is None:
         return
     for i in bad[:3]:
